@@ -39,11 +39,15 @@ ENTRY = dict(
         "'number of parameters per thermostat' = slots per thermostat in the decoded block, (start+count)//T - start",
     ],
     notes=[
-        "PUBLIC ROUTES (round-4 audit).  How a parameter object reaches a client, all driven by harness/c07.py (capture routes of the "
-        "'kept' histories): device.data[name]; device.get_nowait(name); attribute access device.<name>; await device.get(name); "
-        "subscribe(name, cb) callback argument; subscribe(name, on_change(cb)) callback argument; the same on sub-devices reached through "
-        "ecomax.data['mixers'][m] / ['thermostats'][t]. NOT driven: await device.wait_for(name) alone (it returns nothing), subscribe_once "
-        "(same dispatch path as subscribe), the other filters (throttle/debounce/delta/aggregate/custom: C20's subject).",
+        "PUBLIC ROUTES (round-4/5 audit).  How a parameter object reaches a client, all driven by harness/c07.py (capture routes of the "
+        "'kept' / 'kept-served' histories): device.data[name]; device.get_nowait(name); attribute access device.<name>; await device.get(name); "
+        "await device.wait_for(name) then data[name]; subscribe(name, cb) and subscribe_once(name, cb) callback argument; the callback argument "
+        "behind every filter that hands values on unchanged and chains of them: on_change, debounce(1), debounce(2), throttle, custom, "
+        "on_change(debounce), debounce(on_change), throttle(custom); copy.copy(parameter) and copy.deepcopy(parameter) (the operation the filters "
+        "use for their snapshots; a copy that cannot transmit is not judged; a copy that can keeps its slot since fix 64e2017); the same on sub-devices reached through "
+        "ecomax.data['mixers'][m] / ['thermostats'][t]. In the 'kept-served' histories the controller reports everything again after the client "
+        "subscribed, so every subscription has delivered an object before the client writes. NOT driven: delta / aggregate (they deliver numbers, "
+        "not the parameter: C20's subject).",
         "How a parameter is written, all driven (write routes, chosen per set): Parameter.set; Parameter.set_nowait; Device.set(name, v) on the "
         "owning device (controller, Mixer, Thermostat); Device.set_nowait; Switch.turn_on/turn_off; Switch.turn_on_nowait/turn_off_nowait; "
         "EcoMAX.turn_on/turn_off and their _nowait forms (ecomax_control); schedule switch/parameter set -> SetScheduleRequest; "
